@@ -4,10 +4,10 @@ import (
 	"encoding/json"
 	"fmt"
 	"runtime"
-	"time"
 	"strings"
 	"sync"
 	"sync/atomic"
+	"time"
 
 	"verif/chk"
 	"verif/hx"
@@ -20,20 +20,23 @@ func init() {
 
 // HistInput is the replay form of one E2 execution.
 type HistInput struct {
-	Units    []string `json:"units"`
-	Cfg      ref.Cfg  `json:"cfg"`
-	Begin    string   `json:"begin,omitempty"`
-	Commit   string   `json:"commit,omitempty"`
-	Rollback string   `json:"rollback,omitempty"`
-	Insert   *Insert  `json:"insert,omitempty"`
-	Pattern  *Pattern `json:"pattern,omitempty"`
-	LockStep bool     `json:"lockstep"`
-	Bases    []uint64 `json:"bases,omitempty"`
-	Names    []string `json:"names,omitempty"`
-	StartFile string  `json:"start_file,omitempty"`
-	StartPos  uint64  `json:"start_pos,omitempty"`
-	Oracle   string   `json:"oracle"`
-	TCP      bool     `json:"tcp,omitempty"`
+	Units     []string `json:"units"`
+	Cfg       ref.Cfg  `json:"cfg"`
+	Begin     string   `json:"begin,omitempty"`
+	Commit    string   `json:"commit,omitempty"`
+	Rollback  string   `json:"rollback,omitempty"`
+	Insert    *Insert  `json:"insert,omitempty"`
+	Pattern   *Pattern `json:"pattern,omitempty"`
+	LockStep  bool     `json:"lockstep"`
+	Bases     []uint64 `json:"bases,omitempty"`
+	Names     []string `json:"names,omitempty"`
+	StartFile string   `json:"start_file,omitempty"`
+	StartPos  uint64   `json:"start_pos,omitempty"`
+	Oracle    string   `json:"oracle"`
+	TCP       bool     `json:"tcp,omitempty"`
+	// RejectAt k+1: the handler rejects delivery k; the same Streamer then
+	// streams a second time from the position it kept (0 = single attempt).
+	RejectAt int `json:"reject_at,omitempty"`
 }
 
 // Insert places a noise unit before event Slot of the base history's first file.
@@ -77,6 +80,9 @@ func checkGrouping(in HistInput) (string, int, int) {
 	if stop != nil {
 		return "generator error: history contains an unsupported event: " + stop.Why, 0, 0
 	}
+	if in.RejectAt > 0 {
+		return checkRejectRetry(in, h, start, exp), len(served), len(exp)
+	}
 	out := Run(h, Opts{Start: start, ServerID: 77, LockStep: in.LockStep && !in.TCP, KeepTx: true, TCP: in.TCP})
 	if out.Hung {
 		return "HUNG", len(served), len(exp)
@@ -114,6 +120,46 @@ func checkGrouping(in HistInput) (string, int, int) {
 	return "", len(served), len(exp)
 }
 
+// checkRejectRetry: the handler rejects delivery k of the first Stream call; a
+// second Stream call on the same Streamer must deliver exactly the transactions
+// from the rejected one on, grouped and labelled as the reference says (the
+// grouping and the labels of later attempts are those of a fresh stream from
+// that position; nothing of the first attempt leaks into them).
+func checkRejectRetry(in HistInput, h *ref.History, start ref.Position, exp []ref.ExpTx) string {
+	k := in.RejectAt - 1
+	if k >= len(exp) {
+		return ""
+	}
+	out := Run(h, Opts{Start: start, ServerID: 77, LockStep: in.LockStep, KeepTx: true, Attempts: 2, FailSet: true, FailAt: k})
+	if out.Hung {
+		return "HUNG"
+	}
+	for a, p := range out.StreamPanic {
+		if p != "" {
+			return fmt.Sprintf("panic in Stream (attempt %d): %s", a, p)
+		}
+	}
+	if len(out.StreamErr) != 2 {
+		return fmt.Sprintf("%d Stream calls returned, expected 2", len(out.StreamErr))
+	}
+	if out.StreamErr[0] == nil {
+		return fmt.Sprintf("the handler rejected delivery %d but Stream returned nil", k)
+	}
+	if out.StreamErr[1] != nil {
+		return "the second Stream call of the same Streamer failed on a well-formed binlog: " + clip(out.StreamErr[1].Error(), 200)
+	}
+	want := append(append([]ref.ExpTx{}, exp[:k+1]...), exp[k:]...)
+	if d := hx.CompareAll(want, out.Snaps()); d != "" {
+		return fmt.Sprintf("handler rejected delivery %d, second attempt on the same Streamer (expected deliveries 0..%d, then %d..%d again): %s", k, k, k, len(exp)-1, d)
+	}
+	for i, d := range out.Deliveries {
+		if diff := d.Snap.Diff(hx.Snapshot(d.Tx)); diff != "" {
+			return fmt.Sprintf("delivery %d changed after it was delivered (re-read after both attempts): %s", i, diff)
+		}
+	}
+	return ""
+}
+
 func clip(s string, n int) string {
 	if len(s) > n {
 		return s[:n] + "..."
@@ -125,6 +171,12 @@ func clip(s string, n int) string {
 func ReplayHistory(kind string, input json.RawMessage) (bool, string) { return replayHist(kind, input) }
 
 func replayHist(kind string, input json.RawMessage) (bool, string) {
+	switch kind {
+	case "restart":
+		return ReplayRestart(input)
+	case "sharedtext":
+		return ReplaySharedText(input)
+	}
 	var in HistInput
 	if err := json.Unmarshal(input, &in); err != nil {
 		return false, err.Error()
@@ -241,10 +293,10 @@ func newHistRunner(r *chk.Run, prop string, check func(HistInput) (string, int, 
 				if why != "" {
 					in2 := in
 					r.Report(chk.Violation{
-						Key:    classify(why),
-						What:   fmt.Sprintf("units=%v cfg=%s lockstep=%v start=%s:%d: %s", in.Units, CfgName(in.Cfg), in.LockStep, in.StartFile, in.StartPos, why),
-						Kind:   "history",
-						Replay: in2,
+						Key:     classify(why),
+						What:    fmt.Sprintf("units=%v cfg=%s lockstep=%v start=%s:%d: %s", in.Units, CfgName(in.Cfg), in.LockStep, in.StartFile, in.StartPos, why),
+						Kind:    "history",
+						Replay:  in2,
 						Recheck: func() string { w, _, _ := hr.check(in2); return w },
 					})
 				}
@@ -335,6 +387,10 @@ func runC02(r *chk.Run) {
 		if len(seq) <= 3 {
 			hr.add(HistInput{Units: units, Cfg: cfgA, LockStep: false})
 			hr.add(HistInput{Units: units, Cfg: cfgB, LockStep: true})
+			// the handler rejects delivery k, the same Streamer streams again
+			for k := 1; k <= len(seq) && len(seq) > 0; k++ {
+				hr.add(HistInput{Units: units, Cfg: cfgA, LockStep: true, RejectAt: k})
+			}
 		}
 		if count%4001 == 0 {
 			r.Sample("sequence", map[string]interface{}{"units": units, "cfg": CfgName(cfgA)})
